@@ -147,7 +147,29 @@ def check(ix, rep):
             tot = E.transitive_effects(ix, cls, 'set_ast')
             fresh = [v for v in tot.writes.get('online_operator_dict', []) if isinstance(v, ast.Call) and getattr(v.func, 'id', None) == 'dict' and not v.args]
             revisit = 'visitAst' in tot.self_calls
-            if fresh and revisit:
+            # ... on every path: reset() hands set_ast the ast that is already installed, so a set_ast that can return early (an "already
+            # installed" shortcut) rebuilds nothing
+            cfg_sa = flow.CFG(sa.node)
+            dom_sa = cfg_sa.dominators()
+
+            def _renews(st_):
+                return isinstance(st_, ast.Assign) and any(E.self_loc(t_) == 'online_operator_dict' for t_ in st_.targets) and isinstance(st_.value, ast.Call) \
+                    and getattr(st_.value.func, 'id', None) == 'dict' and not st_.value.args
+
+            def _revisits(st_):
+                return not isinstance(st_, (ast.If, ast.For, ast.While, ast.Try)) and any(isinstance(x_, ast.Call) and D._self_call(x_) == 'visitAst' for x_ in ast.walk(st_))
+            early = None
+            for p_ in cfg_sa.pred[cfg_sa.exit]:
+                if p_ not in cfg_sa.reachable():
+                    continue
+                doms = [cfg_sa.stmt[d_] for d_ in dom_sa[p_] if cfg_sa.stmt[d_] is not None]
+                if not (any(_renews(x_) for x_ in doms) and any(_revisits(x_) for x_ in doms)):
+                    early = cfg_sa.stmt[p_] if cfg_sa.stmt[p_] is not None else sa.node
+            if fresh and revisit and early is not None:
+                rep.fail('R-STATE', sa.module.rel, sa.qual, '%s:I5-rebuild:every-path' % slotp, 'reset() relies on set_ast(self.ast) to rebuild the operators, but set_ast() can return without '
+                         'renewing online_operator_dict and revisiting the ast (line %d): when the ast is the one already installed -- which is what reset() passes -- the operators '
+                         'keep their history' % getattr(early, 'lineno', sa.node.lineno), getattr(early, 'lineno', sa.node.lineno))
+            elif fresh and revisit:
                 rep.ok('R-STATE', sa.module.rel, sa.qual, '%s:I5-rebuild' % slotp, 'reset() rebuilds online_operator_dict from the ast', sa.node.lineno)
             else:
                 rep.fail('R-STATE', sa.module.rel, sa.qual, '%s:I5-rebuild' % slotp,
